@@ -597,13 +597,40 @@ func oracleC02(c *DriveCtx, res *Result) {
 		want, fetched := modelResolve(res, o.stored, idOf(senderDoc["inbox"]), ex.Limit, ex.Stored)
 		// (c) what must not be dereferenced: Public, and whatever lies only beyond the configured depth
 		_, deep := modelResolve(res, o.stored, idOf(senderDoc["inbox"]), ex.Limit+8, ex.Stored)
+		// an IRI named twice may have failed to fetch once (the injected fault hits one call) and been fetched the other time:
+		// using either answer is legal, for the recipients and for what was worth fetching
+		var want2 []string
+		fetched2 := map[string]bool{}
+		if taskFaulted(res, t) {
+			keepF, keepN := res.faultedDeref, res.nestedFailed
+			okFetch := map[string]bool{}
+			for _, d := range s.World.Derefs {
+				if d.Task == t.ID && d.Res == "ok" {
+					okFetch[d.IRI] = true
+				}
+			}
+			lenF, lenN := map[string]bool{}, map[string]bool{}
+			for iri := range keepF {
+				if !okFetch[iri] {
+					lenF[iri] = true
+				}
+			}
+			for iri := range keepN {
+				if !okFetch[iri] {
+					lenN[iri] = true
+				}
+			}
+			res.faultedDeref, res.nestedFailed = lenF, lenN
+			want2, fetched2 = modelResolve(res, o.stored, idOf(senderDoc["inbox"]), ex.Limit, ex.Stored)
+			res.faultedDeref, res.nestedFailed = keepF, keepN
+		}
 		for _, d := range s.World.Derefs {
 			if d.Task != t.ID {
 				continue
 			}
 			if isPublic(d.IRI) {
 				s.violate("C02", "public-dereferenced", "prepare", "Public was dereferenced")
-			} else if !fetched[d.IRI] && deep[d.IRI] {
+			} else if !fetched[d.IRI] && !fetched2[d.IRI] && deep[d.IRI] {
 				s.violate("C02", "dereferenced-beyond-depth", "prepare", fmt.Sprintf("%s dereferenced %s, which lies beyond depth %d (activity %s)", t.ID, d.IRI, ex.Limit, canonJSON(addressing(o.stored))))
 			}
 		}
@@ -636,29 +663,6 @@ func oracleC02(c *DriveCtx, res *Result) {
 		}
 		okSet := sameSet(got, want)
 		if !okSet && taskFaulted(res, t) {
-			// an IRI named twice may have failed to fetch once (the injected fault hits one call) and been fetched the other time:
-			// using either answer is legal
-			keepF, keepN := res.faultedDeref, res.nestedFailed
-			okFetch := map[string]bool{}
-			for _, d := range s.World.Derefs {
-				if d.Task == t.ID && d.Res == "ok" {
-					okFetch[d.IRI] = true
-				}
-			}
-			lenF, lenN := map[string]bool{}, map[string]bool{}
-			for iri := range keepF {
-				if !okFetch[iri] {
-					lenF[iri] = true
-				}
-			}
-			for iri := range keepN {
-				if !okFetch[iri] {
-					lenN[iri] = true
-				}
-			}
-			res.faultedDeref, res.nestedFailed = lenF, lenN
-			want2, _ := modelResolve(res, o.stored, idOf(senderDoc["inbox"]), ex.Limit, ex.Stored)
-			res.faultedDeref, res.nestedFailed = keepF, keepN
 			okSet = sameSet(got, want2)
 		}
 		if !okSet {
